@@ -77,6 +77,12 @@ class Observer:
                        "real": r.get("real", [])[:60], "model": r.get("model", [])[:60]})
         elif r.get("modOK") is False:
             c["stmt:covered-but-modOK-false(F6)"] = c.get("stmt:covered-but-modOK-false(F6)", 0) + 1
+        if r["status"] == "covered" and r.get("wtC") is not None:
+            c["wtC:" + str(r["wtC"])] = c.get("wtC:" + str(r["wtC"]), 0) + 1
+            if r["wtC"] is False:
+                fs.append({"kind": "wtc", "key": "model-correspondence:wtC",
+                           "what": "the emitted function body (= the model's compL output) is rejected by the typing judgement CTyping.wtFun",
+                           "real": r.get("real", [])[:80]})
         # C08: the static Free discipline under which the monitored C run is proved free of use-after-free /
         # double free / leak (Props/C02Stmt.lean freeOK_sound_c) must hold of what MemoryAnalysis + comp_s emit
         if r["status"] == "covered" and r.get("freeOK") is not None:
